@@ -15,7 +15,7 @@ T(x) == x
 \* universes
 TypesU == IF SHAPE = "typed" THEN (IF SIZE = "q" THEN {MAVEN, PYPI, NPM} ELSE {MAVEN, PYPI, NPM, NUGET, GOLANG})
           ELSE (IF SIZE = "q" THEN {<<116>>, <<84,46,49,43>>, <<33>>} ELSE {<<116>>, <<84,46,49,43>>, <<33>>, <<>>, <<49,45>>})
-NsU == IF SIZE = "q" THEN {<<>>, <<97>>, <<47>>} ELSE {<<>>, <<97>>, <<47>>, <<97,47,47,66>>, <<233,47,64>>}
+NsU == IF SIZE = "q" THEN {<<>>, <<97>>, <<47>>, <<46>>} ELSE {<<>>, <<97>>, <<47>>, <<46>>, <<46,46,47,46>>, <<97,47,47,66>>, <<233,47,64>>}
 NameU == IF SIZE = "q" THEN {<<>>, <<110>>, <<65,95,46,98>>} ELSE {<<>>, <<110>>, <<65,95,46,98>>, <<47,63,35>>, <<453,45,45>>}
 VerU == IF SIZE = "q" THEN {<<>>, <<49>>} ELSE {<<>>, <<49>>, <<64,37>>}
 SubU == IF SIZE = "q" THEN {<<>>, <<115>>, <<46,47,46,46>>} ELSE {<<>>, <<115>>, <<46,47,46,46>>, <<97,47,35>>}
@@ -33,7 +33,7 @@ Ops == {<<"with_package_type", t>> : t \in TypesU}
        \cup {<<"with_subpath", s>> : s \in SubU} \cup {<<"without_subpath">>}
        \cup {<<"with_qualifier", k, v>> : k \in KeyU, v \in ValU}
        \cup {<<"with_qualifier", CHECKSUM, c>> : c \in CkTextU}
-       \cup {<<"without_qualifier", k>> : k \in KeyU \cup {CHECKSUM}} \cup {<<"without_qualifiers">>}
+       \cup {<<"without_qualifier", k>> : k \in KeyU \cup {CHECKSUM, <<107,95>>, <<107,97>>}} \cup {<<"without_qualifiers">>}
        \cup {<<"with_typed_repo", v>> : v \in ValU} \cup {<<"without_typed_repo">>}
        \cup {<<"try_with_typed_checksum", c>> : c \in CkTypedU} \cup {<<"without_typed_checksum">>}
        \* direct edits of the public fields
@@ -43,10 +43,16 @@ Ops == {<<"with_package_type", t>> : t \in TypesU}
 VARIABLES b, pc, last, out, hist
 vars == <<b, pc, last, out, hist>>
 
-Init == /\ \E t \in TypesU, n \in NameU :
-             /\ b = [st |-> t, parts |-> [NoParts EXCEPT !.name = n]]
-             /\ last = LastOfNew(t, n)
-             /\ hist = IF HIST THEN << <<"new", t, n>> >> ELSE <<>>
+\* one larger builder (four qualifiers) whose transitions are explored although it exceeds the weight bound:
+\* removing one of several qualifiers must leave the others in order
+BigQuals == << <<<<107>>, <<49>>>>, <<<<107,95>>, <<50>>>>, <<<<107,97>>, <<51>>>>, <<<<122>>, <<52>>>> >>
+BigB == [st |-> CHOOSE t \in TypesU : ValidType(t), parts |-> [NoParts EXCEPT !.name = <<110>>, !.quals = BigQuals]]
+BigLast == [LastOfNew(BigB.st, <<110>>) EXCEPT !.q = [x \in {BigQuals[i][1] : i \in 1..4} |-> BigQuals[CHOOSE i \in 1..4 : BigQuals[i][1] = x][2]]]
+Init == /\ \/ \E t \in TypesU, n \in NameU :
+                /\ b = [st |-> t, parts |-> [NoParts EXCEPT !.name = n]]
+                /\ last = LastOfNew(t, n)
+                /\ hist = IF HIST THEN << <<"new", t, n>> >> ELSE <<>>
+           \/ (~HIST /\ b = BigB /\ last = BigLast /\ hist = <<>>)
         /\ pc = "edit" /\ out = [ok |-> FALSE, err |-> "none"]
 
 OpCase(pre, op, r) == PrintT(<<"CASE", ToJson([k |-> "bop", sh |-> SHAPE, pre |-> pre, op |-> op,
@@ -86,7 +92,7 @@ Spec == Init /\ [][Next]_vars
 \* independent; K = 2 covers every pairwise interaction)
 Weight(bb) == (IF bb.parts.ns # <<>> THEN 1 ELSE 0) + (IF bb.parts.ver # <<>> THEN 1 ELSE 0)
               + (IF bb.parts.sub # <<>> THEN 1 ELSE 0) + Len(bb.parts.quals)
-Small == Weight(b) <= K
+Small == Weight(b) <= K \/ b = BigB
 
 \* ---- properties
 \* the pipeline actions compose to BuildF (the composed operator used everywhere else)
